@@ -166,6 +166,11 @@ for _w, _n in ((0, 5), (1, 9), (7, 5), (8, 5), (9, 5), (31, 5), (32, 5), (33, 5)
       title="BitPacker -> BitUnpacker::get round trip, exact byte length, width %d" % _w,
       functions=["BitPacker::{write,flush,close}", "BitUnpacker::{new,get,get_slow_path}"],
       bounds="%d symbolic values of width %d, symbolic read index (fast and slow path)" % (_n, _w), assumes=["values fit the announced width"])
+for _w in (9, 32, 33):
+    K("C08", "K08-ids-for-range-w%d" % _w, "c08_ids_for_value_range_w%d" % _w, crate="tantivy-bitpacker", timeout=300,
+      title="BitUnpacker::get_ids_for_value_range (dispatch + narrowing of the u64 bounds) = filter of the id range by value range, width %d" % _w,
+      functions=["BitUnpacker::get_ids_for_value_range", "get_ids_for_value_range_slow"], bounds="3 values of width %d, all u64 bounds; unwind 10" % _w,
+      stubs=(["BitUnpacker::get_ids_for_value_range_fast -> its specification (the SIMD kernel itself is an unsupported construct for CBMC)"] if _w <= 32 else []))
 for _g in (1, 2, 3, 10, 1000):
     K("C08", "K08-range-gcd%d" % _g, "c08_range_transform_gcd%d" % _g, crate="tantivy-columnar", timeout=120, group="c08-range-gcd",
       title="range push-down through min/gcd transformation, gcd %d" % _g, functions=["bitpacked::transform_range_before_linear_transformation"],
